@@ -141,6 +141,10 @@ func (w *World) exec(cs *clientState, idx int, op Op) *Rec {
 		// what a follower read does to a standby node: its backend adopts the leader's committed revision
 		if op.Node < len(w.Nodes) && op.W < len(w.Nodes) && op.Node != op.W {
 			rev := w.committed(op.W)
+			if op.Limit > 0 && uint64(op.Limit) < rev {
+				// an older answer of the leader applied late (two follower reads finishing out of order)
+				rev -= uint64(op.Limit)
+			}
 			w.Nodes[op.Node].B.SetCurrentRevision(rev)
 			s.Note("follower %d synced to %d", op.Node, rev)
 		}
